@@ -200,6 +200,16 @@ example :
        [[[.created, .started, .cmdSet, .completed], [.created, .started, .cmdSet, .cancelled]]]) := by
   decide +kernel
 
+/-- The same with the run paused by an error (a failing command) when Stop arrives: the paused command is not
+executed any more, Stop finalizes it, the run log shows it concluded. -/
+example :
+    let cfg : Cfg := { cmds := [⟨6, none⟩, ⟨0, some 1⟩] }
+    let s := reach cfg [.user .start, .tick, .req 0, .req 1, .tick, .tick, .tick, .user .stop, .tick]
+    s.paused = true ∧ s.resident = some ⟨.stop, 1⟩ ∧ liveObjs s = [] ∧
+    (let s' := (tick s).1
+     s'.paused = false ∧ s'.started = false ∧ s'.stopLog.map concluded = [true]) := by
+  decide +kernel
+
 /-! ### The unchanged code -/
 
 /-- Unchanged code: a command requested in the same tick as Stop, ahead of it in the queue, is started *after*
